@@ -167,6 +167,20 @@ func (e *Engine) runPath(entry *ssa.Function, prefix []Decision) (end pathEnd) {
 				if e.panicsReport {
 					e.reportKind("panic", normPanic(e.valString(r.v))+" in "+e.curFunc(), nil)
 				}
+			case solverFault:
+				// the solver process is in an unknown state: replace it; the path counts as not explored
+				first := r.msg
+				if i := strings.IndexByte(first, '\n'); i >= 0 {
+					first = first[:i]
+				}
+				if os.Getenv("SYMX_DEBUG") != "" {
+					fmt.Println(r.msg)
+				}
+				old := e.solver
+				old.Kill()
+				e.solver = NewSolver(e.solverAlt)
+				e.solver.Queries, e.solver.Time = old.Queries, old.Time
+				end = pathEnd{"internal", first}
 			case unsupportedErr:
 				where := ""
 				if e.cur != nil {
@@ -220,7 +234,7 @@ func newEngine(prog *ssa.Program, pkg *ssa.Package, cfg *Config) *Engine {
 }
 
 func newEngine0(prog *ssa.Program, pkg *ssa.Package, cfg *Config) *Engine {
-	return &Engine{prog: prog, pkg: pkg, solver: NewSolver(cfg.Solver), fuel: cfg.Fuel, unwind: cfg.Unwind, mergeOn: cfg.Merge,
+	return &Engine{prog: prog, pkg: pkg, solver: NewSolver(cfg.Solver), solverAlt: cfg.Solver, fuel: cfg.Fuel, unwind: cfg.Unwind, mergeOn: cfg.Merge,
 		covered: map[string]int{}, funcsSeen: map[string]int{}, stdSeen: map[string]int{}, modelsSeen: map[string]int{}, found: map[string]*Violation{},
 		accesses: map[string]map[access]int{}, initStoreCache: map[*ssa.Package]map[*ssa.Global]bool{}, sizes: types.SizesFor("gc", "amd64"), params: cfg.Params,
 		panicsReport: cfg.Panics == "report", maxDepth: cfg.Depth}
@@ -462,7 +476,7 @@ func main() {
 				e.deadline = deadline
 				end := e.runPath(entry, p)
 				var smp *Sample
-				if end.kind != "infeasible" {
+				if end.kind != "infeasible" && end.kind != "internal" {
 					mu.Lock()
 					want := len(res.Samples) < cfg.Samples
 					mu.Unlock()
